@@ -53,7 +53,7 @@ class Collector:
     def __init__(self, run: Run):
         self.run = run
         self.drift: dict = {}
-        self.stats = {"cases": 0, "return": 0, "raise": 0, "shadowed": 0, "notfound": 0, "pmut": 0, "setups": set(), "shadow_differs": 0}
+        self.stats = {"cases": 0, "return": 0, "raise": 0, "shadowed": 0, "notfound": 0, "pmut": 0, "setups": set(), "shadow_differs": 0, "clauses": {}}
 
     def take(self, case: dict, res: dict):
         run = self.run
@@ -63,6 +63,8 @@ class Collector:
         run.replayed()
         st = self.stats
         st["cases"] += 1
+        if st["cases"] % 20000 == 0:
+            print(f"x05: {st['cases']} cases replayed", flush=True)
         st[case["ref"]["kind"]] += 1
         st["shadowed"] += bool(case["ref"]["shadowed"])
         st["notfound"] += bool(case["ref"]["notfound"])
@@ -74,6 +76,7 @@ class Collector:
         if res["sample"] and res["nontrivial"]:
             run.sample(res["sample"])
         for sig, what, c in res["viol"]:
+            st["clauses"][sig["clause"]] = st["clauses"].get(sig["clause"], 0) + 1
             run.violation(sig, what, c)
         for dname in res["drift"]:
             self.drift[dname] = self.drift.get(dname, 0) + 1
@@ -91,7 +94,7 @@ def main(tier: str, replay: str | None = None):
     run = Run("X05", tier)
     run.rule = ("DynImport.tla: every dotted path of <= MaxLen components x what each prefix is on disk (absent/module/package/namespace) x what its body "
                 "does (completes / raises Exception, SystemExit, KeyboardInterrupt, missing dependency) x what each container defines for the next component "
-                "(nothing / object / raising getattr / rebound sub-module name) x 9 sys.path-import_paths set-ups x sys.path mutation by the imported code. "
+                "(nothing / object / raising getattr / rebound sub-module name) x 11 sys.path-import_paths set-ups x sys.path mutation by the imported code. "
                 "Non-trivial = at least one failed import attempt or getattr step, a shadowed sub-module, a sys.path mutation or a non-default set-up; distinct by abstract case.")
     nproc = max(2, min(14, (os.cpu_count() or 4) - 2))
     with scratch("x05-") as base:
@@ -185,6 +188,6 @@ def _full(run: Run, col: Collector, pool, tier: str):
         col.take(case, r)
     # ---- vacuity
     st = col.stats
-    want_setups = 9
+    want_setups = 11
     if not (st["return"] and st["raise"] and st["shadowed"] and st["notfound"] and st["pmut"] and len(st["setups"]) == want_setups and st["shadow_differs"] > 1):
         die(f"X05: vacuous enumeration: {st}")
